@@ -7,6 +7,7 @@ import (
 	"reflect"
 
 	"github.com/free5gc/go-upf/internal/pfcp"
+	"github.com/free5gc/go-upf/internal/report"
 	"github.com/free5gc/go-upf/internal/verif/vh"
 )
 
@@ -24,6 +25,12 @@ type c06Inst struct {
 type c06Ev struct {
 	Expire bool `json:"expire"`
 	Inst   int  `json:"inst"`
+	// K, when set, is an event on the UPF's own (tx) side that shares the
+	// "address-sequence" identifier space with the retained requests:
+	// "report" (a Session Report Request with the instance's sequence number
+	// goes out to the instance's node), "txexpire" (its retransmission timer
+	// fires - possibly stale), "answer" (the node answers it).
+	K string `json:"k,omitempty"`
 }
 
 type c06Case struct {
@@ -62,6 +69,11 @@ func rxHas(sn *pfcp.VerifSnap, addr string, seq uint32) (bool, bool) {
 		}
 	}
 	return false, false
+}
+
+func hasURR(v *pfcp.VerifSess, id uint32) bool {
+	u, ok := v.URR[id]
+	return ok && !u.Removed
 }
 
 func stripRx(sn *pfcp.VerifSnap, probe string) []pfcp.VerifRx {
@@ -144,11 +156,29 @@ func c06Run(c *c06Case, res *vh.Result) (finds [][2]string, abort string, ncalls
 	type entry struct {
 		rsp []byte // nil: none produced
 	}
+	seenRep := map[int]int{}
 	cAssoc := false           // node C currently associated
 	table := map[int]*entry{} // instance index -> cached response (instances have distinct (addr,seq) by construction)
 	keyOf := func(i int) (string, uint32) {
 		in := c.Insts[i]
 		return smfs[in.Node].Addr(in.Sock).String(), in.Seq
+	}
+	type txReq struct {
+		retries int
+		bytes   []byte
+	}
+	txOut := map[string]*txReq{} // outstanding UPF-initiated requests by transaction id
+	serial := uint64(0)
+	retained := func(post *pfcp.VerifSnap, ei int, what string) {
+		for j := range c.Insts {
+			if table[j] == nil {
+				continue
+			}
+			a2, s2 := keyOf(j)
+			if has, _ := rxHas(post, a2, s2); !has {
+				add("tx-event-released-retained-request", fmt.Sprintf("event %d: %s released the retained request (%s,%d)", ei, what, a2, s2))
+			}
+		}
 	}
 	for ei, ev := range c.Evs {
 		in := c.Insts[ev.Inst]
@@ -157,12 +187,121 @@ func c06Run(c *c06Case, res *vh.Result) (finds [][2]string, abort string, ncalls
 		pre := env.Srv.VerifSnapshot()
 		dpPre := dp.Table()
 		nc := len(tap.Calls)
+		if ev.K != "" {
+			if in.Node > 1 {
+				continue
+			}
+			id := fmt.Sprintf("%s-%d", s.Addr(0).String(), in.Seq)
+			q := txOut[id]
+			switch ev.K {
+			case "report":
+				if q != nil {
+					continue
+				}
+				up := upseid[in.Node]
+				if up == 0 || int(up) > len(pre.Slots) || pre.Slots[up-1] == nil || pre.Slots[up-1].NodeAddr != s.Addr(0).String() ||
+					!hasURR(pre.Slots[up-1], 1) {
+					continue // the preamble session is gone (deleted / re-associated / slot reused): nothing to report on
+				}
+				serial++
+				r := vh.UniqueUSAR(1, serial)
+				r.USARTrigger.Flags = report.USAR_TRIG_VOLTH
+				env.Srv.VerifSetTxSeq(in.Seq)
+				env.Srv.NotifySessReport(report.SessReport{SEID: up, Reports: []report.Report{r}})
+			case "txexpire":
+				env.Srv.NotifyTransTimeout(pfcp.TX, id)
+			case "answer":
+				if q == nil {
+					continue
+				}
+				up := upseid[in.Node]
+				s.SendFrom(0, vh.BuildMsg(vh.MRepRsp, &up, in.Seq, vh.Cause(vh.CauseAccepted)))
+			}
+			if err := env.Barrier(); err != nil {
+				return finds, "barrier after tx event: " + err.Error(), len(tap.Calls)
+			}
+			post := env.Srv.VerifSnapshot()
+			var got []*vh.Datagram
+			for n2, s2 := range smfs {
+				s2.Pump()
+				for _, d := range s2.Take() {
+					add("stray-datagram", fmt.Sprintf("event %d (%s): unexpected datagram at SMF %d: %v", ei, ev.K, n2, d.M))
+				}
+				rs := s2.ReportsSnapshot()
+				for _, d := range rs[seenRep[n2]:] {
+					if n2 != in.Node || d.Sock != 0 {
+						add("misrouted", fmt.Sprintf("event %d (%s): Session Report Request arrived at SMF %d socket %d", ei, ev.K, n2, d.Sock))
+					}
+					got = append(got, d)
+				}
+				seenRep[n2] = len(rs)
+			}
+			retained(post, ei, ev.K+" of "+id)
+			res.Count("tx_side_events", 1)
+			if table[ev.Inst] != nil && in.Sock == 0 {
+				res.Count("tx_events_on_an_id_shared_with_a_retained_request", 1)
+			}
+			if len(tap.Calls) != nc {
+				add("tx-event-side-effect", fmt.Sprintf("event %d (%s): data-plane calls %s", ei, ev.K, vh.J(tap.Calls[nc:])))
+			}
+			inTx := false
+			for _, t := range post.Tx {
+				if t.ID == id {
+					inTx = true
+				}
+			}
+			switch ev.K {
+			case "report":
+				if len(got) != 1 || got[0].M == nil || got[0].M.Seq != in.Seq || !inTx {
+					add("report-not-sent", fmt.Sprintf("event %d: report with sequence %d: %d datagrams, bookkeeping %v", ei, in.Seq, len(got), inTx))
+					continue
+				}
+				txOut[id] = &txReq{bytes: got[0].B}
+			case "txexpire":
+				switch {
+				case q == nil:
+					if len(got) > 0 || !reflect.DeepEqual(pre.Tx, post.Tx) {
+						add("stale-tx-timeout-effect", fmt.Sprintf("event %d: a timer event for %s, which is not outstanding, produced %d datagrams / changed the table", ei, id, len(got)))
+					}
+				case q.retries < 3:
+					q.retries++
+					if len(got) != 1 || !bytes.Equal(got[0].B, q.bytes) || !inTx {
+						add("tx-retransmission", fmt.Sprintf("event %d: expiry %d of %s: %d datagrams, bookkeeping %v", ei, q.retries, id, len(got), inTx))
+					}
+				default:
+					if len(got) > 0 || inTx {
+						add("tx-not-abandoned", fmt.Sprintf("event %d: %s exhausted its retries: %d datagrams, bookkeeping %v", ei, id, len(got), inTx))
+					}
+					delete(txOut, id)
+				}
+			case "answer":
+				if len(got) > 0 || inTx {
+					add("tx-not-completed", fmt.Sprintf("event %d: %s was answered: %d datagrams, bookkeeping %v", ei, id, len(got), inTx))
+				}
+				delete(txOut, id)
+			}
+			continue
+		}
 		if ev.Expire {
+			if txOut[fmt.Sprintf("%s-%d", addr, seq)] != nil {
+				res.Count("retention_expiries_on_an_id_shared_with_an_outstanding_report", 1)
+			}
 			env.Srv.NotifyTransTimeout(pfcp.RX, fmt.Sprintf("%s-%d", addr, seq))
 			if err := env.Barrier(); err != nil {
 				return finds, "barrier after expiry: " + err.Error(), len(tap.Calls)
 			}
 			post := env.Srv.VerifSnapshot()
+			for n2, s2 := range smfs {
+				s2.Pump()
+				rs := s2.ReportsSnapshot()
+				if len(rs) > seenRep[n2] || len(s2.Take()) > 0 {
+					add("expiry-side-effect", fmt.Sprintf("event %d: retention expiry of (%s,%d) made the UPF send a datagram to SMF %d", ei, addr, seq, n2))
+				}
+				seenRep[n2] = len(rs)
+			}
+			if !reflect.DeepEqual(pre.Tx, post.Tx) {
+				add("expiry-side-effect", fmt.Sprintf("event %d: retention expiry of (%s,%d) changed the table of outstanding requests", ei, addr, seq))
+			}
 			if has, _ := rxHas(post, addr, seq); has {
 				add("entry-not-released", fmt.Sprintf("event %d: after the retention timer of (%s,%d) expired its bookkeeping is still present", ei, addr, seq))
 			}
@@ -314,8 +453,13 @@ func runC06(res *vh.Result) {
 			k := rng.Range(3, 4)
 			c.Insts = c06Pick(rng, k)
 			n := rng.Range(6, 30)
+			txside := i%2 == 1
 			for d := 0; d < n; d++ {
-				c.Evs = append(c.Evs, c06Ev{Expire: rng.Chance(1, 4), Inst: rng.Intn(k)})
+				ev := c06Ev{Expire: rng.Chance(1, 4), Inst: rng.Intn(k)}
+				if txside && rng.Chance(1, 3) {
+					ev = c06Ev{Inst: ev.Inst, K: []string{"report", "report", "txexpire", "txexpire", "answer"}[rng.Intn(5)]}
+				}
+				c.Evs = append(c.Evs, ev)
 			}
 		}
 		finds, abort, ncalls := c06Run(&c, res)
